@@ -157,6 +157,54 @@ func (a *VGate) Write(b []byte) {
 	rec.add(recItem{Sink: a.Name, Kind: "write", JSON: c})
 }
 
+// VTap: a user appender that embeds the library's DiscardAppender (for its no-op Start/Stop/Append) and overrides Write to
+// record raw bytes - and Append, so that it is a full recording appender.
+type VTap struct {
+	log.DiscardAppender
+}
+
+func (a *VTap) Append(e *log.Event) { recordEvent(a.Name, e, 0) }
+func (a *VTap) Write(b []byte) {
+	rec.add(recItem{Sink: a.Name, Kind: "write", JSON: append([]byte(nil), b...)})
+}
+
+// VMemLogger: a user-written logger kind. It embeds LoggerBase, records what it accepts under the sink name "m<name>", may
+// decorate the name it reports (the library uses GetName for messages only) and may take its level range from a variable that
+// the application changes at run time (GetLevel is part of the Logger interface; the serving logger's CURRENT range decides).
+type VMemLogger struct {
+	log.LoggerBase
+	Decorate bool `PluginAttribute:"decorate,default=false"`
+	Dynamic  bool `PluginAttribute:"dynamic,default=false"`
+}
+
+var vmemDynamicMin atomic.Value // log.Level
+
+func (l *VMemLogger) Start() error { return nil }
+func (l *VMemLogger) Stop()        {}
+func (l *VMemLogger) GetName() string {
+	if l.Decorate {
+		return "mem(" + l.Name + ")"
+	}
+	return l.Name
+}
+func (l *VMemLogger) GetLevel() log.LevelRange {
+	if l.Dynamic {
+		if m, ok := vmemDynamicMin.Load().(log.Level); ok {
+			return log.LevelRange{MinLevel: m, MaxLevel: log.MaxLevel}
+		}
+	}
+	return l.Level
+}
+func (l *VMemLogger) Append(e *log.Event) {
+	if l.GetLevel().Enable(e.Level) {
+		recordEvent("m"+l.Name, e, 0)
+	}
+	log.PutEvent(e)
+}
+func (l *VMemLogger) Write(b []byte) {
+	rec.add(recItem{Sink: "m" + l.Name, Kind: "write", JSON: append([]byte(nil), b...)})
+}
+
 var idRe = regexp.MustCompile(`id-[0-9A-Za-z]+-[0-9]+`)
 
 func idOf(b []byte) string { return string(idRe.Find(b)) }
@@ -182,6 +230,8 @@ func registerMonitorPlugins() {
 		log.RegisterPlugin[VRec]("VRec", log.PluginTypeAppender)
 		log.RegisterPlugin[VSlow]("VSlow", log.PluginTypeAppender)
 		log.RegisterPlugin[VGate]("VGate", log.PluginTypeAppender)
+		log.RegisterPlugin[VTap]("VTap", log.PluginTypeAppender)
+		log.RegisterPlugin[VMemLogger]("VMem", log.PluginTypeLogger)
 	})
 }
 
